@@ -32,7 +32,7 @@ def scan_templates():
                 seen.add(key)
                 holes.append((key[0], key[1], safe))
             elif safe and (key[0], key[1], False) in holes:
-                holes[holes.index((key[0], key[1], False))] = (key[0], key[1], True)
+                holes[holes.index((key[0], key[1]))] = (key[0], key[1], True)
     return holes
 
 
@@ -48,26 +48,27 @@ def scan_svg():
 
 
 def check_templates(chk):
+    """(is `parent.0` marked safe, violation record or None).  Strict in the unsafe direction: a hole that is not in the model's
+    list, or that is marked `safe` while the model has it escaped, is a violation; a hole that stopped being `safe` (or vanished)
+    is only noted.  The record is emitted by the caller AFTER the report oracle, so that failing inputs are printed first."""
     chk.count()
     found = scan_templates()
     rm = vlib.run_model(chk.pid, "Run.ShowEscape", ["show_holes"])[0]
     if isinstance(rm, tuple) and rm and rm[0] == "@@ERROR":
-        chk.violation({"kind": "correspondence", "engine": "templates", "model": rm}, has_input=False, tag="tpl")
-        return True
+        return True, {"kind": "correspondence", "engine": "templates", "model": rm}
     model = {(bytes(t).decode(), strip_safe(bytes(e).decode())): (s, o) for t, e, s, o in rm}
     problems, stricter = [], []
     for t, e, s in found:
         if (t, e) not in model:
             problems.append({"template": t, "expr": e, "safe": s, "why": "hole not in Model/Escape.v html_holes"})
         elif s and not model[(t, e)][0]:
-            problems.append({"template": t, "expr": e, "why": "marked safe in the template, escaped in the model"})
+            problems.append({"template": t, "expr": e, "why": "marked `safe` in the template, escaped in the model (C18_unescaped_holes_trusted is about the model's list)"})
         elif model[(t, e)][0] and not s:
             stricter.append([t, e])
     for (t, e) in model:
         if (t, e) not in {(a, b) for a, b, _ in found}:
             stricter.append([t, e, "no longer in the template"])
-    svg = scan_svg()
-    for t, e in svg:
+    for t, e in scan_svg():
         problems.append({"template": t, "expr": e, "why": "badge templates are not auto-escaped; only numeric/colour variables expected"})
     src = "".join(open(p, encoding="utf-8").read() for p in glob.glob(os.path.join(vlib.REPO, "src", "*.rs")))
     for word in ("autoescape_on", "set_escape_fn", "reset_escape_fn"):
@@ -75,11 +76,11 @@ def check_templates(chk):
             problems.append({"why": "src/*.rs calls Tera::%s: the escaping discipline modelled no longer applies" % word})
     chk.extra["template_holes"] = {"found": len(found), "safe": [[t, e] for t, e, s in found if s],
                                    "model_safe_now_escaped_or_gone": stricter}
+    rec = None
     if problems:
-        chk.violation({"kind": "correspondence", "engine": "templates", "problems": problems,
-                       "theorems_at_stake": "C18_unescaped_holes_trusted (the list of template holes in Model/Escape.v no longer matches src/templates)"},
-                      has_input=False, tag="tpl")
-    return ("macros.html", "parent.0", True) in found
+        rec = {"kind": "correspondence", "engine": "templates", "problems": problems,
+               "theorems_at_stake": "C18_unescaped_holes_trusted (the list of template holes in Model/Escape.v no longer matches src/templates)"}
+    return ("macros.html", "parent.0", True) in found, rec
 
 
 # ---------------------------------------------------------------- escapers
@@ -289,13 +290,8 @@ def out_name(comps):
     return "/".join(comps[:-1] + [n + ".html"])
 
 
-def in_known_class(case, abs_prefix, page_comps):
-    """KnownClass (F13): a file page generated with --abs-link-prefix whose directory string contains an HTML metacharacter."""
-    return abs_prefix is not None and any(c in "/".join(page_comps[:-1]) for c in "&<>\"'")
-
-
 def oracle_reports(case, bcase, abs_prefix, rh, rb, back, counters):
-    """rh / rb: engine results for the hostile case and the benign one.  Returns list of (clause, detail, known_class)."""
+    """rh / rb: engine results for the hostile case and the benign one.  Returns list of (clause, detail)."""
     fails = []
     files = case["files"]
     rels = ["/".join(f["comps"]) for f in files]
@@ -308,23 +304,23 @@ def oracle_reports(case, bcase, abs_prefix, rh, rb, back, counters):
         broot = ET.fromstring(bytes.fromhex(rb["cobertura"]))
         pk = root.findall("./packages/package")
         if [p.get("name") for p in pk] != rels:
-            fails.append(("cobertura: package names are not the exact paths", [p.get("name") for p in pk], False))
+            fails.append(("cobertura: package names are not the exact paths", [p.get("name") for p in pk]))
         for p, f, rel in zip(pk, files, rels):
             cl = p.findall("./classes/class")
             if len(cl) != 1 or cl[0].get("filename") != rel or cl[0].get("name") != g.stem(f["comps"][-1]):
-                fails.append(("cobertura: class name/filename are not the exact names", [c.attrib for c in cl], False))
+                fails.append(("cobertura: class name/filename are not the exact names", [c.attrib for c in cl]))
             ms = sorted(m.get("name") for m in cl[0].findall("./methods/method")) if cl else None
             if exact and ms != sorted(n for n, _, _ in f["funcs"]):
-                fails.append(("cobertura: method names are not the exact function names", ms, False))
+                fails.append(("cobertura: method names are not the exact function names", ms))
         src = [s.text or "" for s in root.findall("./sources/source")]
         if src != [case["source_dir"] if case["source_dir"] is not None else "."]:
-            fails.append(("cobertura: <source> text is not the exact source dir", src, False))
+            fails.append(("cobertura: <source> text is not the exact source dir", src))
         if exact and xml_tree(root) != xml_tree(broot, back):
-            fails.append(("cobertura: element/attribute tree differs from the benign report of the same shape (modulo renaming)", None, False))
+            fails.append(("cobertura: element/attribute tree differs from the benign report of the same shape (modulo renaming)", None))
         if not exact and blank_names(xml_tree(root)) != blank_names(xml_tree(broot)):
-            fails.append(("cobertura (demangled): skeleton differs from the benign report", None, False))
+            fails.append(("cobertura (demangled): skeleton differs from the benign report", None))
     except ET.ParseError as ex:
-        fails.append(("cobertura: not well-formed XML: %s" % ex, None, False))
+        fails.append(("cobertura: not well-formed XML: %s" % ex, None))
 
     # ---- JSON reports
     def loadj(name, lines=False):
@@ -337,16 +333,16 @@ def oracle_reports(case, bcase, abs_prefix, rh, rb, back, counters):
         cv, cvb = loadj("coveralls")
         sf = cv["source_files"]
         if [x["name"] for x in sf] != rels:
-            fails.append(("coveralls: source file names are not the exact paths", [x["name"] for x in sf], False))
+            fails.append(("coveralls: source file names are not the exact paths", [x["name"] for x in sf]))
         for x, f in zip(sf, files):
             if exact and sorted(y["name"] for y in x["functions"]) != sorted(n for n, _, _ in f["funcs"]):
-                fails.append(("coveralls: function names are not exact", x["functions"], False))
+                fails.append(("coveralls: function names are not exact", x["functions"]))
         if exact and canon_fn(rename_json(cvb, back)) != canon_fn(rename_json(cv, {})):
-            fails.append(("coveralls: differs from the benign report modulo renaming (extra or missing records/keys)", None, False))
+            fails.append(("coveralls: differs from the benign report modulo renaming (extra or missing records/keys)", None))
         if not exact and canon_fn(json_shape(cv)) != canon_fn(json_shape(cvb)):
-            fails.append(("coveralls (demangled): shape differs from the benign report", None, False))
+            fails.append(("coveralls (demangled): shape differs from the benign report", None))
     except ValueError as ex:
-        fails.append(("coveralls: not valid JSON: %s" % ex, None, False))
+        fails.append(("coveralls: not valid JSON: %s" % ex, None))
     try:
         cd, cdb = loadj("covdir")
         for f in files:
@@ -354,33 +350,33 @@ def oracle_reports(case, bcase, abs_prefix, rh, rb, back, counters):
             for c in f["comps"]:
                 node = (node.get("children") or {}).get(c)
                 if node is None or node.get("name") != c:
-                    fails.append(("covdir: path component missing or renamed", f["comps"], False))
+                    fails.append(("covdir: path component missing or renamed", f["comps"]))
                     break
         if rename_json(cdb, back) != cd:
-            fails.append(("covdir: differs from the benign report modulo renaming", None, False))
+            fails.append(("covdir: differs from the benign report modulo renaming", None))
     except ValueError as ex:
-        fails.append(("covdir: not valid JSON: %s" % ex, None, False))
+        fails.append(("covdir: not valid JSON: %s" % ex, None))
     try:
         ad, adb = loadj("ade", lines=True)
         want = sorted(([rel, n] for f, rel in zip(files, rels) for n in [x[0] for x in f["funcs"]] + [None]), key=json.dumps)
         got = sorted(([r["file"]["name"], r["method"].get("name")] for r in ad), key=json.dumps)
         if exact and got != want:
-            fails.append(("activedata: records do not carry exactly the names (one per function and one per file)", got, False))
+            fails.append(("activedata: records do not carry exactly the names (one per function and one per file)", got))
         if len(ad) != len(want):
-            fails.append(("activedata: number of records depends on the names", len(ad), False))
+            fails.append(("activedata: number of records depends on the names", len(ad)))
         key = lambda r: json.dumps(r, sort_keys=True)
         if exact and sorted(map(key, rename_json(adb, back))) != sorted(map(key, ad)):
-            fails.append(("activedata: differs from the benign report modulo renaming", None, False))
+            fails.append(("activedata: differs from the benign report modulo renaming", None))
     except ValueError as ex:
-        fails.append(("activedata: not valid JSON (line-delimited): %s" % ex, None, False))
+        fails.append(("activedata: not valid JSON (line-delimited): %s" % ex, None))
 
     # ---- HTML
     hh, hb = unhex_map(rh["html"]), unhex_map(rb["html"])
     try:
         if json.loads(hh["coverage.json"]) != json.loads(hb["coverage.json"]):
-            fails.append(("coverage.json depends on the names", None, False))
+            fails.append(("coverage.json depends on the names", None))
     except (ValueError, KeyError) as ex:
-        fails.append(("coverage.json: missing or not valid JSON: %s" % ex, None, False))
+        fails.append(("coverage.json: missing or not valid JSON: %s" % ex, None))
     pages = [("index.html", "index.html", ["index"])]
     bfiles = {tuple(f["comps"]): bf["comps"] for f, bf in zip(files, bcase["files"])}
     dirs = {}
@@ -392,45 +388,28 @@ def oracle_reports(case, bcase, abs_prefix, rh, rb, back, counters):
             pages.append(("/".join(d) + "/index.html", "/".join(bd) + "/index.html", list(d) + ["index.html"]))
     for hp, bp, comps in pages:
         counters["pages"] += 1
-        kc = comps != ["index"] and comps[-1] != "index.html" and in_known_class(case, abs_prefix, comps)
         if hp not in hh or bp not in hb:
-            fails.append(("html: page missing", [hp, hp in hh, bp, bp in hb], False))
+            fails.append(("html: page missing", [hp, hp in hh, bp, bp in hb]))
             continue
-        page = hh[hp]
-        if kc:
-            # known finding F13, narrowed to the one hole: put the escaped link where the raw one stands, then the page
-            # must pass the full oracle like any other; the raw link itself is the known-class failure
-            link = ABS_PREFIX + "/" + "/".join(comps[:-1]) + "/index.html"
-            raw = ('<li><a href="%s">' % link).encode()
-            if raw in page:
-                page = page.replace(raw, ('<li><a href="%s">' % tera_escape(link)).encode(), 1)
-                fails.append(("html: directory name pasted raw into the breadcrumb link of %s" % hp, link, True))
         try:
-            eh = html_events(page.decode("utf-8"))
+            eh = html_events(hh[hp].decode("utf-8"))
             eb = html_events(hb[bp].decode("utf-8"))
         except Exception as ex:
-            fails.append(("html: page cannot be parsed: %s" % ex, hp, False))
+            fails.append(("html: page cannot be parsed: %s" % ex, hp))
             continue
-        kc = False
         if skeleton(eh) != skeleton(eb):
             fails.append(("html: tag/attribute skeleton of %s differs from the benign page (a name or source line produced markup)" % hp,
-                          first_diff(skeleton(eh), skeleton(eb)), kc))
+                          first_diff(skeleton(eh), skeleton(eb))))
         elif sort_rows(eh) != sort_rows(rename_events(eb, back)):
             fails.append(("html: text/attribute values of %s are not the benign ones modulo renaming (names not shown exactly as data)" % hp,
-                          first_diff(sort_rows(eh), sort_rows(rename_events(eb, back))), kc))
+                          first_diff(sort_rows(eh), sort_rows(rename_events(eb, back)))))
     extra = set(hh) - {p for p, _, _ in pages} - {k for k in hh if k.startswith("badges/") or k == "coverage.json"}
     if extra:
-        fails.append(("html: unexpected output files", sorted(extra), False))
+        fails.append(("html: unexpected output files", sorted(extra)))
     for k in hh:
         if k.startswith("badges/") and hh[k] != hb.get(k):
-            fails.append(("html: badge depends on the names", k, False))
+            fails.append(("html: badge depends on the names", k))
     return fails
-
-
-def tera_escape(t):
-    for a, b in (("&", "&amp;"), ("<", "&lt;"), (">", "&gt;"), ('"', "&quot;"), ("'", "&#x27;"), ("/", "&#x2F;")):
-        t = t.replace(a, b)
-    return t
 
 
 def first_diff(a, b):
@@ -463,7 +442,90 @@ def canon_fn(v):
     return v
 
 
-def run_reports(chk, cases, parent_safe, known_entry, label="rep"):
+MAX_REPORT_VIOLATIONS = 3      # further failing report sets are only counted (evidence: reports.failing_report_sets)
+
+
+def report_fails(chk, case, ap):
+    """oracle verdict on one generator-level case (runs the writers on it and on its benign twin)."""
+    bcase, back = g.benign_of(case)
+    res = vlib.run_impl("escape", [g.to_engine(case, ap), g.to_engine(bcase, ap)], chk.pid, extra_env=ENV)
+    if "cobertura" not in res[0] or "cobertura" not in res[1]:
+        return [("the report writers must not fail", res[0] if "cobertura" not in res[0] else res[1])]
+    return oracle_reports(case, bcase, ap, res[0], res[1], back, {"pages": 0})
+
+
+def strings_of(case):
+    out = []
+    for f in case["files"]:
+        out += [("comp", c) for c in f["comps"]] + [("func", n) for n, _, _ in f["funcs"]] + [("line", l) for l in f["lines"] if l]
+    if case["source_dir"] is not None:
+        out.append(("source_dir", case["source_dir"]))
+    seen, res = set(), []
+    for x in out:
+        if x not in seen:
+            seen.add(x)
+            res.append(x)
+    return res
+
+
+def substitute(case, sub):
+    """case with every string replaced through sub[(kind, string)] where present"""
+    files = []
+    for f in case["files"]:
+        files.append(dict(f, comps=[sub.get(("comp", c), c) for c in f["comps"]], lines=[sub.get(("line", l), l) for l in f["lines"]],
+                          funcs=[[sub.get(("func", n), n), a, b] for n, a, b in f["funcs"]]))
+    sd = case["source_dir"]
+    return dict(case, files=files, source_dir=sub.get(("source_dir", sd), sd))
+
+
+def shrink(chk, case, ap):
+    """smallest failing case found: one file, all strings but one made plain, that one shortened.  Returns (case, culprit or None)."""
+    budget = [60]
+
+    def bad(c):
+        if budget[0] <= 0:
+            return False
+        budget[0] -= 1
+        try:
+            return bool(report_fails(chk, c, ap))
+        except Exception:
+            return False
+    best = case
+    for f in case["files"]:
+        c1 = dict(case, files=[f])
+        if len(case["files"]) > 1 and bad(c1):
+            best = c1
+            break
+    strs = strings_of(best)
+    files_names = {f["comps"][-1] for f in best["files"]}
+    plain = {}
+    for i, (kind, v) in enumerate(strs):
+        plain[(kind, v)] = "n%d" % i + (".c" if kind == "comp" and v in files_names and g.has_ext(v) else "")
+    for key in sorted(strs, key=lambda kv: not any(ch in kv[1] for ch in "&<>\"'\\")):
+        sub = {k: w for k, w in plain.items() if k != key}
+        c2 = substitute(best, sub)
+        if bad(c2):
+            kind, v = key
+            # shorten the culprit (delta debugging on its characters)
+            n = 2
+            while len(v) >= 2 and budget[0] > 0:
+                chunk = max(1, len(v) // n)
+                for i in range(0, len(v), chunk):
+                    t = v[:i] + v[i + chunk:]
+                    if t and t not in (".", "..") and bad(substitute(c2, {(kind, v): t})):
+                        c2 = substitute(c2, {(kind, v): t})
+                        v = t
+                        n = max(n - 1, 2)
+                        break
+                else:
+                    if chunk == 1:
+                        break
+                    n = min(n * 2, len(v))
+            return c2, {"kind": kind, "string": v}
+    return best, None
+
+
+def run_reports(chk, cases, parent_safe, label="rep"):
     eng, meta = [], []
     for case in cases:
         bcase, back = g.benign_of(case)
@@ -472,7 +534,7 @@ def run_reports(chk, cases, parent_safe, known_entry, label="rep"):
             eng.append(g.to_engine(bcase, ap))
             meta.append((case, bcase, back, ap))
     res = vlib.run_impl("escape", eng, chk.pid, extra_env=ENV, parallel=4)
-    counters = {"cases": len(cases), "report_sets": len(meta), "pages": 0, "known_class_pages_violating": 0,
+    counters = {"cases": len(cases), "report_sets": len(meta), "pages": 0, "failing_report_sets": 0,
                 "files": 0, "demangled": 0, "names_with_markup_meta": 0, "names_with_json_meta": 0, "names_non_ascii": 0, "source_lines": 0}
     bc_exprs, bc_meta = [], []
     st_exprs, st_meta = [], []
@@ -484,16 +546,18 @@ def run_reports(chk, cases, parent_safe, known_entry, label="rep"):
                            "clause": "the report writers must not fail (panic/crash) on printable names"}, tag=label)
             continue
         fails = oracle_reports(case, bcase, ap, rh, rb, back, counters)
-        real = [f for f in fails if not f[2]]
-        kn = [f for f in fails if f[2]]
-        if kn:
-            counters["known_class_pages_violating"] += len(kn)
-            if known_entry is None:
-                real += kn
-        if real:
-            chk.violation({"kind": "oracle", "engine": "escape", "case": eng[2 * k], "benign_case": eng[2 * k + 1], "abs_link_prefix": ap, "gen_case": case,
-                           "fails": [[c, d] for c, d, _ in real[:6]],
-                           "clause": "well-formed, exact names, same skeleton as the benign report of the same shape"}, tag=label)
+        if fails:
+            counters["failing_report_sets"] += 1
+            if counters["failing_report_sets"] <= MAX_REPORT_VIOLATIONS:
+                rec = {"kind": "oracle", "engine": "escape", "abs_link_prefix": ap, "gen_case": case, "fails": [[c, d] for c, d in fails[:6]],
+                       "clause": "well-formed, exact names, same skeleton and content as the benign report of the same shape"}
+                if counters["failing_report_sets"] == 1 and label == "rep":
+                    small, culprit = shrink(chk, case, ap)
+                    rec.update({"gen_case": small, "original_gen_case": case, "hostile_name": culprit,
+                                "fails": [[c, d] for c, d in report_fails(chk, small, ap)[:6]]})
+                rec["case"] = g.to_engine(rec["gen_case"], ap)
+                rec["benign_case"] = g.to_engine(g.benign_of(rec["gen_case"])[0], ap)
+                chk.violation(rec, tag=label)
             continue
         if ap is None:
             names = [c for f in case["files"] for c in f["comps"]] + [n for f in case["files"] for n, _, _ in f["funcs"]]
@@ -562,8 +626,9 @@ def witness_case():
             "source_dir": None, "demangle": False, "pretty": False, "branch": False}
 
 
-def confirm_known(chk, entry):
-    """F13 on the real CLI: a directory name becomes a live element in the breadcrumb link when --abs-link-prefix is given."""
+def cli_witness(chk):
+    """the F13 witness (fixed by 6a2db8b) on the real CLI: a directory name must not become an element of the file page,
+    with or without --abs-link-prefix."""
     chk.count()
     exe = vlib.build_cli()
     sc = vlib.scratch("c18_witness")
@@ -573,27 +638,18 @@ def confirm_known(chk, entry):
         f.write("int main() {\n  return 0;\n}\n")
     with open(os.path.join(sc, "in.info"), "w") as f:
         f.write("TN:\nSF:%s/a.c\nFN:1,main\nFNDA:1,main\nDA:1,1\nDA:2,1\nend_of_record\n" % d)
-    out = {}
     for tag, extra in (("prefix", ["--abs-link-prefix", ABS_PREFIX]), ("plain", [])):
         o = os.path.join(sc, "out_" + tag)
         p = vlib.sh([exe, os.path.join(sc, "in.info"), "-t", "html", "-o", o, "-s", os.path.join(sc, "src")] + extra, cwd=sc, env=ENV, timeout=120)
         page = os.path.join(o, WITNESS_DIR, "a.c.html")
         if not os.path.exists(page):
             chk.violation({"kind": "oracle", "engine": "cli", "cmd": extra, "stderr": p.stderr[-800:], "clause": "grcov -t html must write the file page"}, tag="cli")
-            return False
-        out[tag] = [e[1] for e in html_events(open(page, encoding="utf-8").read()) if e[0] == "s"]
-    live = out["prefix"].count("img") > 0
-    if out["plain"].count("img") > 0:
-        chk.violation({"kind": "oracle", "engine": "cli", "case": {"dir": WITNESS_DIR}, "tags": out["plain"],
-                       "clause": "without --abs-link-prefix the directory name must not produce an element"}, tag="cli")
-    if live:
-        if entry is not None:
-            chk.known(entry)
-        else:
-            chk.violation({"kind": "oracle", "engine": "cli", "case": {"dir": WITNESS_DIR, "abs_link_prefix": ABS_PREFIX}, "tags": out["prefix"],
+            return
+        tags = [e[1] for e in html_events(open(page, encoding="utf-8").read()) if e[0] == "s"]
+        if "img" in tags:
+            chk.violation({"kind": "oracle", "engine": "cli", "case": {"dir": WITNESS_DIR, "options": extra}, "tags": tags,
                            "clause": "a directory name must not produce an element (img) in the file page"}, tag="cli")
-    chk.extra["known_finding_witness_live"] = live
-    return live
+    chk.extra["f13_witness_rerun_on_cli"] = True
 
 
 def make_strings(chk, n):
@@ -615,15 +671,15 @@ def make_strings(chk, n):
 
 def run(chk):
     chk.proofs()
-    known = {e["key"]: e for e in vlib.known_findings(chk.pid) if e.get("status") == "known"}
-    entry = known.get("html-breadcrumb-safe-link")
-    parent_safe = check_templates(chk)
+    parent_safe, tpl = check_templates(chk)
     quick = chk.tier == "quick"
     check_escapers(chk, make_strings(chk, 1500 if quick else 12000))
-    live = confirm_known(chk, entry)
+    cli_witness(chk)
     cases = [witness_case()] + [g.gen_case(chk.rng) for _ in range(70 if quick else 700)]
-    counters = run_reports(chk, cases, parent_safe, entry if live else None)
+    counters = run_reports(chk, cases, parent_safe)
     chk.extra["reports"] = counters
+    if tpl:      # after the report oracle: a change of the templates that matters has produced failing inputs above
+        chk.violation(tpl, has_input=False, tag="tpl")
     chk.cov["rule"] = ("(a) strings of printable Unicode (all ASCII characters singly, all pairs of the metacharacters & < > \" ' / \\ ; #, injection payloads, "
                        "2-4 byte UTF-8, up to 800 characters; 7% with one control character as an out-of-domain probe): quick-xml escape, serde_json to_string and "
                        "tera escape_html vs the Gallina escapers byte for byte, the Gallina decoders on the library output, and Python's expat / json / html.parser "
@@ -633,7 +689,7 @@ def run(chk):
                        "output_activedata_etl, output_html each parsed by a standard parser, names compared exactly, and the whole parsed report compared with "
                        "the report of a benign case of the same shape modulo the renaming (HTML: tag/attribute skeleton equal, then all text and attribute values equal); "
                        "the package/class/method start tags of every Cobertura report and the breadcrumb entry of every file page vs the Gallina rendering; non-trivial = report set with a metacharacter in some name. "
-                       "(c) the {{ }} holes and their `safe` marks extracted from src/templates vs Model/Escape.v html_holes; (d) the F13 witness on the real CLI.")
+                       "(c) the {{ }} holes and their `safe` marks extracted from src/templates vs Model/Escape.v html_holes; (d) the witness of the fixed defect F13 re-run on the real CLI.")
     chk.cov["trusted_base"] = ["Coq kernel; vm_compute for the correspondence", "Tera's template expansion (which holes are escaped: renderer/processor.rs:444) - "
                                "checked behaviourally on every generated page, not modelled", "quick-xml Writer / serde_json serializer framing around the escaped strings "
                                "(checked by the parsers on every report)", "Python xml.etree(expat), json, html.parser as the standard readers", "impl_run harness"]
@@ -650,10 +706,7 @@ def replay(chk, path):
     if isinstance(c, dict) and c.get("op") == "esc":
         check_escapers(chk, [bytes.fromhex(x).decode() for x in c["s"]])
     elif "gen_case" in r:
-        known = {e["key"]: e for e in vlib.known_findings(chk.pid) if e.get("status") == "known"}
-        entry = known.get("html-breadcrumb-safe-link")
-        parent_safe = check_templates(chk)
-        live = confirm_known(chk, entry)
-        run_reports(chk, [r["gen_case"]], parent_safe, entry if live else None, label="replay")
+        parent_safe, _ = check_templates(chk)
+        run_reports(chk, [r["gen_case"]], parent_safe, label="replay")
     else:
         run(chk)
